@@ -308,3 +308,24 @@ class Report:
             return 1
         print(f"OK property={self.pid} tier={tier()} wall={wall:.1f}s")
         return 0
+
+
+# ---------------------------------------------------------------- Apalache (symbolic, unbounded integers)
+
+def apalache_check(module, inv, pid, length=0, timeout=900):
+    """Bounded symbolic check of `inv` with Apalache (SMT).  Used for design-level lemmas over the REAL constants,
+    where TLC can only enumerate scaled-down ones.  Returns dict(ok, wall, out); a failing lemma is a tool error
+    for the caller (the specification itself would be wrong)."""
+    out_dir = os.path.join(WORK, pid, "apalache")
+    shutil.rmtree(out_dir, ignore_errors=True)
+    os.makedirs(out_dir, exist_ok=True)
+    t0 = time.time()
+    try:
+        p = subprocess.run(["apalache-mc", "check", f"--length={length}", f"--inv={inv}", f"--out-dir={out_dir}",
+                            os.path.join(SPEC, module)], cwd=out_dir, stdout=subprocess.PIPE, stderr=subprocess.STDOUT,
+                           text=True, timeout=timeout)
+    except subprocess.TimeoutExpired:
+        raise ToolError(f"apalache timed out on {module}")
+    ok = p.returncode == 0 and "The outcome is: NoError" in p.stdout
+    shutil.rmtree(out_dir, ignore_errors=True)
+    return {"ok": ok, "wall": time.time() - t0, "out": p.stdout, "violated": "invariant" in p.stdout and "violated" in p.stdout}
